@@ -454,6 +454,18 @@ def PyObject_Repr(ex, o):
 
 
 def PyUnicode_AsUTF8(ex, s):
+    """UTF-8 text of a str: exact for model strs with concrete ASCII content, otherwise an
+    arbitrary NUL-terminated text of < 16 bytes (only used for error messages)"""
+    p = py(ex)
+    i = p.objs.get(simp(s)) if is_c(simp(s)) else None
+    if i is not None and i.get('kind') == 'str':
+        kind, cps = p.read_unicode(simp(s))
+        cps = [simp(c) for c in cps]
+        if all(is_c(c) and 0 < c < 128 for c in cps):
+            r = ex.mem.alloc(len(cps) + 1, 'utf8 text', 'pyobj', fill=0)
+            for k, c in enumerate(cps):
+                ex.mem.store(r.base + k, c, 1)
+            return r.base
     r = ex.mem.alloc(16, 'utf8 text', 'pyobj')
     ex.mem.store(r.base + 15, 0, 1)
     return r.base
@@ -650,6 +662,106 @@ def PyUnicode_GetLength(ex, u):
     return py(ex).ex.mem.load(simp(u) + 16, 8)
 
 
+# ---- abstract dict (association list; keys compared by identity, int value or str content) -------
+
+def _dict_items(ex, d):
+    i = py(ex).info(d)
+    if 'items' not in i:
+        i['items'] = []
+    return i['items']
+
+
+def _same_key(ex, a, b):
+    a, b = simp(a), simp(b)
+    if a == b:
+        return True
+    p = py(ex)
+    ia, ib = p.objs.get(a), p.objs.get(b)
+    if ia is None or ib is None:
+        return False
+    if ia['kind'] == 'int' and ib['kind'] == 'int':
+        return ex.decide(ia['V'] == ib['V'])
+    if ia['kind'] == 'str' and ib['kind'] == 'str':
+        ka, ca = p.read_unicode(a)
+        kb, cb = p.read_unicode(b)
+        if len(ca) != len(cb):
+            return False
+        return ex.decide(llsym.b_and(*[llsym.eq(llsym.zext(x, 8 * ka, 32) if not is_c(x) else x,
+                                                llsym.zext(y, 8 * kb, 32) if not is_c(y) else y, 32)
+                                       for x, y in zip(ca, cb)]))
+    return False
+
+
+def PyDict_New(ex):
+    a = py(ex).new_opaque('dict', 'PyDict_Type', items=[])
+    py(ex).created.append(('PyDict_New', a, None))
+    return a
+
+
+def PyDict_SetItem(ex, d, k, v):
+    for it in _dict_items(ex, d):
+        if _same_key(ex, it[0], k):
+            it[1] = simp(v)
+            return 0
+    _dict_items(ex, d).append([simp(k), simp(v)])
+    return 0
+
+
+def PyDict_GetItem(ex, d, k):
+    for it in _dict_items(ex, d):
+        if _same_key(ex, it[0], k):
+            return it[1]
+    return 0
+
+
+def PyDict_DelItem(ex, d, k):
+    items = _dict_items(ex, d)
+    for n, it in enumerate(items):
+        if _same_key(ex, it[0], k):
+            del items[n]
+            return 0
+    p = py(ex)
+    p.exc = 'PyExc_KeyError'
+    return mask(32)
+
+
+def PyDict_Clear(ex, d):
+    del _dict_items(ex, d)[:]
+    return None
+
+
+def PyDict_Size(ex, d):
+    return len(_dict_items(ex, d))
+
+
+def PyDict_Next(ex, d, ppos, pkey, pvalue):
+    """iteration over a snapshot index; entries deleted during iteration shift like a list (the
+    callers under test only delete the current key)"""
+    items = _dict_items(ex, d)
+    pos = ex.concretize(ex.mem.load(ppos, 8), 64, 64, 'dict position')
+    st = py(ex).info(d).setdefault('iter', {})
+    order = st.setdefault('order', None)
+    if pos == 0:
+        st['order'] = order = [it[0] for it in items]
+    while pos < len(order):
+        k = order[pos]
+        pos += 1
+        for it in items:
+            if it[0] == k:
+                ex.mem.store(ppos, pos, 8)
+                if simp(pkey) != 0:
+                    ex.mem.store(pkey, it[0], 8)
+                if simp(pvalue) != 0:
+                    ex.mem.store(pvalue, it[1], 8)
+                return 1
+    ex.mem.store(ppos, pos, 8)
+    return 0
+
+
+def PyDict_Keys(ex, d):
+    return py(ex).new_list([it[0] for it in _dict_items(ex, d)])
+
+
 SSIZE_MAX = (1 << 63) - 1
 
 
@@ -804,6 +916,9 @@ DEFAULT = {
     '@*': extern_global,
     'PyUnicode_FromKindAndData': PyUnicode_FromKindAndData, 'PyUnicode_New': PyUnicode_New,
     'PyUnicode_AsUCS4': PyUnicode_AsUCS4, 'PyUnicode_GetLength': PyUnicode_GetLength,
+    'PyDict_New': PyDict_New, 'PyDict_SetItem': PyDict_SetItem, 'PyDict_GetItem': PyDict_GetItem,
+    'PyDict_DelItem': PyDict_DelItem, 'PyDict_Clear': PyDict_Clear, 'PyDict_Size': PyDict_Size,
+    'PyDict_Next': PyDict_Next, 'PyDict_Keys': PyDict_Keys,
     'PySlice_Unpack': PySlice_Unpack, 'PySlice_AdjustIndices': PySlice_AdjustIndices,
     'PyObject_GetBuffer': PyObject_GetBuffer, 'PyBuffer_IsContiguous': PyBuffer_IsContiguous,
     'PyBuffer_Release': PyBuffer_Release, '_PyObject_GC_New': _PyObject_GC_New,
